@@ -135,3 +135,30 @@ def semaphores_only_through_executor(ctx):
         and g.must_pass([g.entry], g.nodes_of(incs[0]), [g.exit], g.NORMAL) and g.must_pass([g.entry], g.nodes_of(decs[0]), [g.exit], g.NORMAL)
     ctx.ob(f, 'one sequence advance and one count decrement per acquire', once,
            'each acquire must take exactly one unit and issue exactly one token')
+
+
+@rule('C12.f', ['C12'], floor=4)
+def sliding_window_state_is_per_tag(ctx):
+    """All sliding-window bookkeeping is keyed by the tag: _tag_sequences, _lowest_sequence and
+    _pending_release are mappings, and in acquire/release every access to them goes through
+    [tag] / .get(tag, ..) / .setdefault(tag, ..) / `tag in`; the drain loop of release compares
+    the tag's lowest sequence with the end of the tag's own pending list.  A structure shared
+    between tags lets one tag's pending releases block (or be taken for) another's."""
+    cl = ctx.cls(SWS)
+    init = cl.methods['__init__']
+    for attr in ('_tag_sequences', '_lowest_sequence', '_pending_release'):
+        vals = [v for fn, v in cl.init_attrs.get(attr, []) if fn is init]
+        ok = len(vals) == 1 and (isinstance(vals[0], ast.Dict) and not vals[0].keys or
+                                 (isinstance(vals[0], ast.Call) and norm(vals[0].func) in ('defaultdict', 'dict', 'collections.defaultdict')))
+        ctx.ob(init, f'self.{attr} is a mapping (by tag)', ok, f'initialised as {[norm(v) for v in vals]}')
+        for mname in ('acquire', 'release'):
+            m = cl.methods[mname]
+            tag = m.params[1]
+            for n in own_nodes(m.node):
+                if isinstance(n, ast.Attribute) and n.attr == attr and dotted(n) == f'self.{attr}':
+                    par = n._parent
+                    keyed = (isinstance(par, ast.Subscript) and par.value is n and norm(par.slice) == tag) or \
+                            (isinstance(par, ast.Attribute) and par.attr in ('get', 'setdefault', 'pop') and isinstance(par._parent, ast.Call)
+                             and par._parent.args and norm(par._parent.args[0]) == tag) or \
+                            (isinstance(par, ast.Compare) and len(par.ops) == 1 and isinstance(par.ops[0], (ast.In, ast.NotIn)) and norm(par.left) == tag)
+                    ctx.ob(m, f'{mname}: self.{attr} accessed by tag', keyed, f'{short(par, 60)} is not an access keyed by {tag}')
